@@ -806,6 +806,41 @@ def _register_setup_type() -> None:
     get_default_factory().register(VfDeploy())
 
 
+def _register_fanin_type() -> None:
+    """Stage type whose builder plans three before-stages with a fan-in among them: fast (1 task) and
+    slow (polls twice) in parallel, then merge (AND join on both)."""
+    from stabilize.models.stage import SyntheticStageOwner
+    from stabilize.stages.builder import StageDefinitionBuilder, get_default_factory
+
+    class VfFanin(StageDefinitionBuilder):
+        @property
+        def type(self) -> str:
+            return "vtask_fanin"
+
+        def before_stages(self, stage, graph):  # type: ignore[no-untyped-def]
+            def mk(name: str, beh: dict[str, Any]) -> StageExecution:
+                st = StageExecution.create_synthetic(type="vtask", name=name, parent=stage, owner=SyntheticStageOwner.STAGE_BEFORE, context={"vf": {"t1": beh}})
+                st.tasks = [TaskExecution.create(name="t1", implementing_class="vtask", stage_start=True, stage_end=True)]
+                return st
+
+            fast, slow, merge = mk("fast", {"kind": "ok"}), mk("slow", {"kind": "poll", "n": 2}), mk("merge", {"kind": "ok"})
+            graph.add(fast)
+            graph.add(slow)
+            graph.add(merge)
+            graph.connect(fast, merge)
+            graph.connect(slow, merge)
+
+    get_default_factory().register(VfFanin())
+
+
+def wl_builder_fanin() -> Workflow:
+    """p (own task; its builder plans before-stages fast || slow -> merge) -> d."""
+    _register_fanin_type()
+    p = stage("p")
+    p.type = "vtask_fanin"
+    return workflow([p, stage("d", ["p"])])
+
+
 def wl_builder_before() -> Workflow:
     """p (own task; its builder creates a before-stage at plan time) -> d."""
     _register_setup_type()
@@ -1107,6 +1142,7 @@ WORKLOADS: dict[str, Callable[[], Workflow]] = {
     "diamond_j2": lambda: wl_diamond(join_tasks=2),
     "diamond_built": wl_diamond_built,
     "builder_before": wl_builder_before,
+    "builder_fanin": wl_builder_fanin,
     "after2": lambda: wl_synthetic("after2"),
     "after2_fail": lambda: wl_synthetic("after2_fail"),
     "after2_failcont": lambda: wl_synthetic("after2_failcont"),
